@@ -21,6 +21,8 @@ def search(ctx):
 
 
 def run_witness(ctx, finding):
+    if common.run_script_witness(ctx, finding):
+        return
     _sched.run_witness(ctx, PROP, finding)
 
 
